@@ -48,7 +48,7 @@ _IR_DTYPE_TO_SAFETENSORS_DTYPE = {
     ir.DataType.FLOAT4E2M1: "float4_e2m1fn_x2",
     ir.DataType.FLOAT8E5M2: "float8_e5m2",
     ir.DataType.FLOAT8E4M3FN: "float8_e4m3fn",
-    ir.DataType.FLOAT8E8M0: "float8_e8m0",
+    ir.DataType.FLOAT8E8M0: "float8_e8m0fnu",
     ir.DataType.FLOAT8E4M3FNUZ: "uint8",
     ir.DataType.FLOAT8E5M2FNUZ: "uint8",
     ir.DataType.BFLOAT16: "bfloat16",
